@@ -699,24 +699,9 @@ MULTI += [
    ("                            channel.requests.pop();", "                            channel.requests.remove(0);")]),
 ]
 
-# Behaviour-preserving edits the checks are KNOWN to alarm on (documented limitation, DESIGN.md section 8): a step of a function that a
-# rule decides intraprocedurally is extracted into a helper function.  The rule no longer sees the step in the body it is phrased over and
-# fails closed.  Kept here so the limitation is measured, not hidden; run_benign reports them as ALARM-AS-DOCUMENTED.
-# formerly a documented limit (round 7); the flush-and-sync helper is summarised by every C10 rule that needs it since round 8
+# helper extraction: a step of a function the rules look at is moved into a new private function.  Since round 9 such functions (not in
+# rules/known_fns.json) are inlined into their callers before the rules run, so these must stay silent.
 MULTI += [
- ("B.file_sync_helper", ["C10", "C07", "C11"], "emitter/file/src/lib.rs", [
-   ("""        file.file
-            .flush()
-            .map_err(|e| emit_batcher::BatchError::no_retry(e))?;
-        file.file
-            .sync_all()
-            .map_err(|e| emit_batcher::BatchError::no_retry(e))?;
-""", """        flush_and_sync(&mut file).map_err(|e| emit_batcher::BatchError::no_retry(e))?;
-"""),
-   ("fn is_file_in_set(file_name: &str, file_prefix: &str, file_ext: &str) -> bool {", "fn flush_and_sync(file: &mut ActiveFile) -> io::Result<()> {\n    file.file.flush()?;\n    file.file.sync_all()\n}\n\nfn is_file_in_set(file_name: &str, file_prefix: &str, file_ext: &str) -> bool {")]),
-]
-
-LIMITS = [
  ("B.write_counted_helper", ["C10", "C11", "C07"], "emitter/file/src/lib.rs", [
    ("""            self.file_size_bytes += separator.len();
             self.file.write_all(separator)?;""", """            self.write_counted(separator)?;"""),
@@ -724,4 +709,69 @@ LIMITS = [
         self.file.write_all(event_buf)?;""", """        self.write_counted(event_buf)?;"""),
    ("    fn write_event(&mut self, event_buf: &[u8], separator: &'static [u8]) -> Result<(), io::Error> {",
     "    fn write_counted(&mut self, buf: &[u8]) -> Result<(), io::Error> {\n        self.file_size_bytes += buf.len();\n        self.file.write_all(buf)\n    }\n\n    fn write_event(&mut self, event_buf: &[u8], separator: &'static [u8]) -> Result<(), io::Error> {")]),
+ ("B.h.send_truncate_helper", ["C06", "C07", "C08", "C09"], "batcher/src/lib.rs", [
+   ("""        if state.next_batch.channel.len() >= self.max_capacity {
+            state.next_batch.channel.clear();
+            self.shared.metrics.queue_full_truncated.increment();
+        }
+
+        // If the channel is closed then return without adding the message""", """        self.truncate_if_full(&mut state);
+
+        // If the channel is closed then return without adding the message"""),
+   ("    /**\n    Send an item on the channel, returning it if it's currently full.", """    fn truncate_if_full(&self, state: &mut State<T>) {
+        if state.next_batch.channel.len() >= self.max_capacity {
+            state.next_batch.channel.clear();
+            self.shared.metrics.queue_full_truncated.increment();
+        }
+    }
+
+    /**
+    Send an item on the channel, returning it if it's currently full.""")]),
+ ("B.h.otlp_ack_helper", ["C07", "C12", "C14"], "emitter/otlp/src/client.rs", [
+   ("                            channel.requests.pop();", "                            Self::acknowledge(&mut channel);"),
+   ("    pub(crate) async fn send(&self, mut channel: Channel) -> Result<(), BatchError<Channel>> {",
+    "    fn acknowledge(channel: &mut Channel) {\n        channel.requests.pop();\n    }\n\n    pub(crate) async fn send(&self, mut channel: Channel) -> Result<(), BatchError<Channel>> {")]),
+ ("B.h.tl_slot_helper", ["C03", "C04", "C19"], "src/platform/thread_local_ctxt.rs", [
+   ("""        let current = active
+            .entry(id)
+            .or_insert_with(|| ThreadLocalCtxtFrame { props: None });
+
+        mem::swap(current, incoming);""", """        let current = slot_of(&mut active, id);
+
+        mem::swap(current, incoming);"""),
+   ("fn swap(id: usize, incoming: &mut ThreadLocalCtxtFrame) {", """fn slot_of(active: &mut HashMap<usize, ThreadLocalCtxtFrame>, id: usize) -> &mut ThreadLocalCtxtFrame {
+    active
+        .entry(id)
+        .or_insert_with(|| ThreadLocalCtxtFrame { props: None })
+}
+
+fn swap(id: usize, incoming: &mut ThreadLocalCtxtFrame) {""")]),
+]
+
+MULTI += [
+ ("B.write_counted_trait", ["C10", "C11", "C07"], "emitter/file/src/lib.rs", [
+   ("""            self.file_size_bytes += separator.len();
+            self.file.write_all(separator)?;""", """            CountedWrite::write_counted(self, separator)?;"""),
+   ("""        self.file_size_bytes += event_buf.len();
+        self.file.write_all(event_buf)?;""", """        CountedWrite::write_counted(self, event_buf)?;"""),
+   ("fn is_file_in_set(file_name: &str, file_prefix: &str, file_ext: &str) -> bool {",
+    "trait CountedWrite {\n    fn write_counted(&mut self, buf: &[u8]) -> Result<(), io::Error>;\n}\n\nimpl CountedWrite for ActiveFile {\n    fn write_counted(&mut self, buf: &[u8]) -> Result<(), io::Error> {\n        self.file_size_bytes += buf.len();\n        self.file.write_all(buf)\n    }\n}\n\nfn is_file_in_set(file_name: &str, file_prefix: &str, file_ext: &str) -> bool {")]),
+]
+
+# Behaviour-preserving edits the checks are KNOWN to alarm on (documented limitation, DESIGN.md section 8.1): the step is moved into a
+# *local closure* that is then called (an indirect call through Fn::call; the inliner splices functions and statically resolved
+# methods only).  Kept so the limitation is measured, not hidden.
+LIMITS = [
+ ("B.write_counted_closure", ["C10", "C11", "C07"], "emitter/file/src/lib.rs", [
+   ("""        if self.file_needs_recovery {
+            self.file_size_bytes += separator.len();
+            self.file.write_all(separator)?;""", """        let write_counted = |this: &mut Self, buf: &[u8]| -> Result<(), io::Error> {
+            this.file_size_bytes += buf.len();
+            this.file.write_all(buf)
+        };
+
+        if self.file_needs_recovery {
+            write_counted(self, separator)?;"""),
+   ("""        self.file_size_bytes += event_buf.len();
+        self.file.write_all(event_buf)?;""", """        write_counted(self, event_buf)?;""")]),
 ]
